@@ -27,7 +27,13 @@ Inductive case :=
 | CEst (rounds : list Z) (h c : bool) (reps : Z) (data anc : list Z)
        (L : Z)                                                  (* kernel_cycle_length of RepetitionExperimentKernel(rounds, h, c, data, anc, reps) *)
        (sizes : list Z) (ests : list (outcome Z))               (* estimate_experiment_repetitions(rounds, h, c, size) for each size *)
-| CErr (rounds : list Z) (h c : bool) (reps : Z) (data anc : list Z) (size : Z) (init : outcome unit) (est : outcome Z).
+| CErr (rounds : list Z) (h c : bool) (reps : Z) (data anc : list Z) (size : Z) (init : outcome unit) (est : outcome Z)
+(* a very large experiment (repetitions x cycle length beyond 2^31): the rows of the three cycle getters for block n are far too
+   many to list, so the driver reports the cycle length, the index range and, for each getter, the rows of a few selected
+   repetitions i (first, second, middle, around the 2^31 boundary, last) *)
+| CBig (rounds : list Z) (h c : bool) (reps : Z) (data anc : list Z) (q n : Z)
+       (start stop L : Z) (nrows : list Z) (rows : list (Z * list (list Z))).   (* nrows: number of rows of her / sp / proj;
+                                                                                   rows: (i, [her_i; sp_i; proj_i]) *)
 
 Definition lz_eqb := list_eqb Z.eqb.
 Definition mat_eqb := list_eqb lz_eqb.
@@ -92,6 +98,17 @@ Definition agree (cs : case) : bool :=
   | CErr rounds h c reps data anc size init est =>
       outcome_eqb unit_eqb (match experiment_kernel rounds h c data anc reps with Value _ => Value tt | Raised e => Raised e end) init
       && outcome_eqb Z.eqb (estimate_experiment_repetitions rounds h c size) est
+  | CBig rounds h c reps data anc q n start stop L nrows rows =>
+      (* the model of the SAME description with one repetition gives the rows of repetition 0 and the cycle length *)
+      match experiment_kernel rounds h c data anc 1 with
+      | Raised _ => false
+      | Value e =>
+          let o := qobs_of e q n in
+          (L =? RepetitionExperimentKernel_kernel_cycle_length e) && (start =? RepetitionExperimentKernel_start_index e)
+          && (stop =? start + reps * L)
+          && forallb (fun r => if fst r =? 0
+                               then mat_eqb (snd r) [concat (qo_her o); concat (qo_sp o); concat (qo_proj o)] else true) rows
+      end
   end.
 
 (* ------------------------------------------------------------------ specification side (implementation values only) *)
@@ -135,6 +152,18 @@ Definition estimate_ok (Lc size : Z) (r : outcome Z) : bool :=
 
 Definition is_value {A} (o : outcome A) : bool := match o with Value _ => true | Raised _ => false end.
 
+(* CBig: successive repetitions are exact translates by the cycle length and stay inside the kernel, also far beyond 2^31 *)
+Definition big_ok (reps start stop L : Z) (nrows : list Z) (rows : list (Z * list (list Z))) : bool :=
+  (1 <=? L) && (stop =? start + reps * L)   (* the experiment kernel reports start + repetitions * cycle length *)
+  && forallb (fun x => x =? reps) nrows
+  && match find (fun r => fst r =? 0) rows with
+     | None => false
+     | Some r0 =>
+         forallb (fun r => (0 <=? fst r) && (fst r <? reps)
+                           && mat_eqb (snd r) (map (map (fun x => x + fst r * L)) (snd r0))
+                           && forallb (all_in start (start + reps * L - 1)) (snd r)) rows
+     end.
+
 Definition spec_ok (cs : case) : bool :=
   match cs with
   | CExp rounds h c reps data anc q start stop L klen xreps ks cal qs cal_her cal_proj =>
@@ -164,4 +193,5 @@ Definition spec_ok (cs : case) : bool :=
       | [] => true
       | _ => is_value init && (is_value est || outcome_eqb Z.eqb est (Raised AssertionError))
       end
+  | CBig rounds h c reps data anc q n start stop L nrows rows => big_ok reps start stop L nrows rows
   end.
